@@ -252,6 +252,24 @@ func (w *world) buildPlain(q Query) []built {
 		return false
 	}
 	switch kind {
+	case "hfid":
+		// the condition names nothing but the related document's id: it selects the holders whose link
+		// RESOLVES to that document (a link to a deleted or never created document has no related
+		// document, so its holder is not selected although its foreign key holds the id)
+		all := w.docs[r.To]
+		id := danglingID
+		if n := q.V % (len(all) + 1); n < len(all) {
+			id = all[n].id
+		}
+		b := built{class: "related-docid-filter-from-holder", root: H, q: q, rel: k, fromTo: true, hasWant: true, invertible: false}
+		b.body = fmt.Sprintf(`{ %s(filter: {%s: {_docID: {_eq: %q}}}) { %s } }`, H, rf, id, hSel)
+		b.want = []any{}
+		for _, d := range w.live(r.From) {
+			if t := w.target(d); t != nil && t.id == id {
+				b.want = append(b.want, holderRow(d, q.Render))
+			}
+		}
+		return []built{b}
 	case "hf", "hor", "cnthf":
 		b := built{class: "filter-from-holder", root: H, q: q, rel: k, fromTo: true, hasWant: defined, keyPath: keyPath, desc: desc, orderReq: q.OwnOrder > 0, invertible: kind != "hor"}
 		extra, nameOK := "", func(*mdoc) bool { return true }
